@@ -180,14 +180,16 @@ pub fn mutfen_string(m: &MutFen) -> Option<String> {
 
 /// black-box: the CLI front end prints the loader's error and exits normally
 pub fn cli_check(s: &str) -> CaseResult {
-    let bin = std::env::var("WALLEYE_BIN").map_err(|_| "WALLEYE_BIN not set".to_string())?;
+    let bin = std::env::var("WALLEYE_BIN").map_err(|_| "HARNESS: WALLEYE_BIN not set".to_string())?;
     let expected = match catch(|| BoardState::from_fen(s).map_err(|e| e.to_string())) {
         Ok(Err(e)) => e,
         _ => return Ok(()), // accepted (or panicking: reported by the in-process part)
     };
-    let dir = format!("{}/run/cli_{}_{:x}", std::env::var("VERIF_CACHE").unwrap_or_else(|_| "/verif/.cache".into()), std::process::id(), fp(&s));
+    // a private scratch directory per invocation (the same string can be tried by two workers)
+    static N: std::sync::atomic::AtomicU64 = std::sync::atomic::AtomicU64::new(0);
+    let dir = format!("{}/run/cli_{}_{}", std::env::var("VERIF_CACHE").unwrap_or_else(|_| "/verif/.cache".into()), std::process::id(), N.fetch_add(1, std::sync::atomic::Ordering::Relaxed));
     std::fs::create_dir_all(&dir).ok();
-    let out = std::process::Command::new(&bin).current_dir(&dir).arg(format!("--fen={}", s)).arg("-T").arg("-d").arg("1").stdin(std::process::Stdio::null()).output().map_err(|e| format!("cannot run {}: {}", bin, e))?;
+    let out = std::process::Command::new(&bin).current_dir(&dir).arg(format!("--fen={}", s)).arg("-T").arg("-d").arg("1").stdin(std::process::Stdio::null()).output().map_err(|e| format!("HARNESS: cannot run {}: {}", bin, e))?;
     std::fs::remove_dir_all(&dir).ok();
     let stdout = String::from_utf8_lossy(&out.stdout);
     let stderr = String::from_utf8_lossy(&out.stderr);
